@@ -188,14 +188,26 @@ def run_property(prop, tier, seed, jobs=None, only=None):
     # ---- classify against known findings
     findings = [f for f in load_findings() if f.get("property") == prop]
     known = {f["key"]: f for f in findings if f.get("status") == "known"}
+
+    def known_key(mech):
+        """A violation is a listed finding iff its mechanism key is listed and, when the entry enumerates
+        `details` (the specific call shapes that fail), its detail suffix is one of them."""
+        base, _, detail = mech.partition("|")
+        f = known.get(base)
+        if f is None:
+            return None
+        if "details" in f:
+            return base if detail in f["details"] else None
+        return base if not detail or f.get("any_detail", True) else None
     seen_known = collections.OrderedDict()
     unlisted = []
     for v in violations:
-        if v["mech"] in known:
-            seen_known.setdefault(v["mech"], v)
+        kk = known_key(v["mech"])
+        if kk is not None:
+            seen_known.setdefault(kk, v)
         else:
             unlisted.append(v)
-    n_unlisted = sum(1 for v in violations if v["mech"] not in known)
+    n_unlisted = len(unlisted)
     # ---- required classes
     missing = [c for c in getattr(mod, "REQUIRED", {}).get(tier, getattr(mod, "REQUIRED", {}).get("quick", []))
                if classes.get(c, 0) == 0 and counters.get(c, 0) == 0]
